@@ -17,7 +17,7 @@ Definition the_exec (sched : bool) (sns ens : Z) : exec :=
   {| e_sched := sched; e_ok := true; e_s := sns / ns; e_e := ens / ns |}.
 
 Definition committed (sched : bool) (s : st) (sns ens : Z) : st :=
-  {| lp := Some (ens / ns); active := active s;
+  {| lp := if advances (lp s) (sns / ns) (ens / ns) then Some (ens / ns) else lp s; active := active s;
      execs := the_exec sched sns ens :: execs s; dest := the_row sns ens :: dest s |}.
 
 Lemma run_prefix_0 sched s sns ens : run_prefix 0 sched s sns ens = s.
@@ -40,7 +40,8 @@ Qed.
 Lemma atomic_advance k sched s sns ens :
   let s' := run_prefix k sched s sns ens in
   ((k < 4)%nat -> lp s' = lp s /\ execs s' = execs s /\ active s' = active s) /\
-  ((4 <= k)%nat -> lp s' = Some (ens / ns) /\ execs s' = the_exec sched sns ens :: execs s /\ active s' = active s).
+  ((4 <= k)%nat -> lp s' = (if advances (lp s) (sns / ns) (ens / ns) then Some (ens / ns) else lp s) /\
+                   execs s' = the_exec sched sns ens :: execs s /\ active s' = active s).
 Proof.
   cbn zeta. split; intros H.
   - destruct (Nat.eq_dec k 0) as [->|].
@@ -229,22 +230,6 @@ Proof.
   rewrite filter_app, IH. cbn [filter]. destruct (e_ok e && e_sched e); cbn; [reflexivity|apply app_nil_r].
 Qed.
 
-(* the pointer-side view of a log: the newest completed window ends at last_end *)
-Lemma last_end_head log :
-  match completed log with
-  | [] => last_end log = None
-  | (_, d) :: _ => last_end log = Some d
-  end.
-Proof.
-  induction log as [|e r IH]; [reflexivity|].
-  unfold completed in *. cbn [filter last_end]. destruct (e_ok e); cbn [map]; [reflexivity|exact IH].
-Qed.
-
-Lemma last_end_none log : last_end log = None -> completed log = [].
-Proof.
-  intros H. pose proof (last_end_head log) as L. destruct (completed log) as [|[a d] r]; [reflexivity|congruence].
-Qed.
-
 Lemma completed_cons_ok e log : e_ok e = true -> completed (e :: log) = (e_s e, e_e e) :: completed log.
 Proof. intros H. unfold completed. cbn [filter]. rewrite H. reflexivity. Qed.
 
@@ -258,11 +243,55 @@ Lemma mul_div_ns l : l * ns / ns = l.
 Proof. unfold ns. lia. Qed.
 
 (* ------------------------------------------------------------------------------------ *)
+(* the guarded pointer update                                                              *)
+(* ------------------------------------------------------------------------------------ *)
+
+(* a window that starts at the pointer always leaves the pointer at its end *)
+Lemma commit_at_pointer sched s sns ens :
+  sns < ens -> (match lp s with Some l => sns / ns = l | None => True end) ->
+  lp (committed sched s sns ens) = Some (ens / ns).
+Proof.
+  intros Hw Hs. cbn [committed lp]. pose proof (div_ns_le _ _ Hw) as Hle.
+  destruct (lp s) as [l|]; cbn [advances]; [|reflexivity]. subst l.
+  destruct (sns / ns <=? sns / ns) eqn:E1; [|lia].
+  destruct (sns / ns <? ens / ns) eqn:E2; cbn [andb]; [reflexivity|]. f_equal. lia.
+Qed.
+
+(* the pointer never moves backwards *)
+Lemma commit_monotone sched s sns ens p :
+  lp s = Some p -> exists p', lp (committed sched s sns ens) = Some p' /\ p <= p'.
+Proof.
+  intros H. cbn [committed lp]. rewrite H. cbn [advances].
+  destruct ((sns / ns <=? p) && (p <? ens / ns)) eqn:E.
+  - exists (ens / ns). split; [reflexivity|]. apply andb_true_iff in E as [_ E]. lia.
+  - exists p. split; [reflexivity|lia].
+Qed.
+
+Lemma step_monotone lbs lbm s o s' out p :
+  step lbs lbm s o = (s', out) -> lp s = Some p -> exists p', lp s' = Some p' /\ p <= p'.
+Proof.
+  intros H Hp. destruct (step_shape_of _ _ _ _ _ _ H) as
+      [-> _|act _ -> _|sched sns ens _ -> _|sns ens _ -> _|now fail _ _ _ -> _|now xs xe fail _ _ _ -> _];
+    try (exists p; split; [assumption|lia]).
+  - apply commit_monotone; exact Hp.
+  - apply commit_monotone; exact Hp.
+Qed.
+
+Lemma run_monotone lbs lbm ops : forall s p,
+  lp s = Some p -> exists p', lp (run lbs lbm s ops) = Some p' /\ p <= p'.
+Proof.
+  induction ops as [|o r IH]; intros s p Hp; [exists p; split; [exact Hp|lia]|].
+  cbn [run]. destruct (step lbs lbm s o) as [s' out] eqn:E. cbn [fst].
+  destruct (step_monotone _ _ _ _ _ _ _ E Hp) as (p1 & H1 & L1).
+  destruct (IH s' p1 H1) as (p2 & H2 & L2). exists p2. split; [exact H2|lia].
+Qed.
+
+(* ------------------------------------------------------------------------------------ *)
 (* C29_history, C29_label: invariant of ALL histories                                      *)
 (* ------------------------------------------------------------------------------------ *)
 
 Definition inv_all (s : st) : Prop :=
-  lp s = last_end (execs s) /\ starts_at_prev (execs s) = true /\ forallb label_ok (dest s) = true.
+  lp s = ptr_of (execs s) /\ starts_at_ptr (execs s) = true /\ forallb label_ok (dest s) = true.
 
 Lemma label_ok_the_row sns ens : sns < ens -> label_ok (the_row sns ens) = true.
 Proof.
@@ -273,26 +302,33 @@ Qed.
 Lemma inv_all_init : inv_all init.
 Proof. repeat split. Qed.
 
+Lemma inv_all_commit sched s sns ens :
+  inv_all s -> sns < ens ->
+  (sched = true -> match lp s with Some l => sns / ns = l | None => True end) ->
+  inv_all (committed sched s sns ens).
+Proof.
+  intros (Hp & Hs & Hl) Hw Hstart. split; [|split].
+  - cbn [committed lp execs ptr_of the_exec e_ok e_s e_e andb]. rewrite <- Hp. reflexivity.
+  - cbn [committed execs starts_at_ptr the_exec e_ok e_sched e_s e_e andb]. rewrite Hs, andb_true_r.
+    destruct sched; [|reflexivity]. rewrite <- Hp. specialize (Hstart eq_refl).
+    destruct (lp s) as [l|]; [|reflexivity]. apply Z.eqb_eq. exact Hstart.
+  - cbn [committed dest forallb]. rewrite label_ok_the_row by assumption. exact Hl.
+Qed.
+
 Lemma inv_all_step lbs lbm s o s' out :
   inv_all s -> step lbs lbm s o = (s', out) -> inv_all s'.
 Proof.
-  intros (Hp & Hs & Hl) H.
+  intros Hi H. pose proof Hi as (Hp & Hs & Hl).
   destruct (step_shape_of _ _ _ _ _ _ H) as
       [-> _|act _ -> _|sched sns ens Hw -> _|sns ens Hw -> _|now fail _ Ha Hw -> _|now xs xe fail _ Ha Hw -> _].
-  - repeat split; assumption.
-  - repeat split; assumption.
+  - exact Hi.
+  - exact Hi.
   - repeat split; cbn; assumption.
   - repeat split; cbn [add_dest lp execs dest forallb]; try assumption.
     rewrite label_ok_the_row by assumption. exact Hl.
-  - split; [|split]; cbn [committed lp execs dest forallb last_end starts_at_prev the_exec e_ok e_sched e_s e_e andb].
-    + reflexivity.
-    + rewrite Hs, andb_true_r. rewrite <- Hp. unfold win_start.
-      destruct (lp s) as [l|]; [|reflexivity]. rewrite mul_div_ns. apply Z.eqb_refl.
-    + rewrite label_ok_the_row by assumption. exact Hl.
-  - split; [|split]; cbn [committed lp execs dest forallb last_end starts_at_prev the_exec e_ok e_sched e_s e_e andb].
-    + reflexivity.
-    + exact Hs.
-    + rewrite label_ok_the_row by assumption. exact Hl.
+  - apply inv_all_commit; [exact Hi|exact Hw|]. intros _. unfold win_start.
+    destruct (lp s); [apply mul_div_ns|exact I].
+  - apply inv_all_commit; [exact Hi|exact Hw|]. intros Hx; discriminate.
 Qed.
 
 Lemma inv_all_run lbs lbm ops : forall s, inv_all s -> inv_all (run lbs lbm s ops).
@@ -302,9 +338,49 @@ Proof.
   eapply inv_all_step; eauto.
 Qed.
 
+(* no pointer <-> nothing completed yet *)
+Lemma ptr_of_none log : ptr_of log = None -> filter e_ok log = [].
+Proof.
+  induction log as [|e r IH]; [reflexivity|]. cbn [ptr_of filter].
+  destruct (e_ok e) eqn:Eo; cbn [andb].
+  - destruct (ptr_of r) as [p|]; cbn [advances].
+    + destruct ((e_s e <=? p) && (p <? e_e e)); discriminate.
+    + discriminate.
+  - exact IH.
+Qed.
+
+Lemma no_ok_no_sched log : filter e_ok log = [] -> completed_sched log = [].
+Proof.
+  intros H. unfold completed_sched. induction log as [|e r IH]; [reflexivity|].
+  cbn [filter] in *. destruct (e_ok e); [discriminate|]. cbn [andb]. apply IH. exact H.
+Qed.
+
+Lemma no_ok_no_front log : filter e_ok log = [] -> front log = None.
+Proof.
+  induction log as [|e r IH]; [reflexivity|]. cbn [filter front].
+  destruct (e_ok e); [discriminate|]. exact IH.
+Qed.
+
 (* ------------------------------------------------------------------------------------ *)
 (* tiling when no effective manual run names an explicit start                             *)
 (* ------------------------------------------------------------------------------------ *)
+
+(* end of the most recent completed execution of a log given NEWEST FIRST *)
+Fixpoint last_end (log : list exec) : option Z :=
+  match log with
+  | [] => None
+  | e :: r => if e_ok e then Some (e_e e) else last_end r
+  end.
+
+Lemma last_end_head log :
+  match completed log with
+  | [] => last_end log = None
+  | (_, d) :: _ => last_end log = Some d
+  end.
+Proof.
+  induction log as [|e r IH]; [reflexivity|].
+  unfold completed in *. cbn [filter last_end]. destruct (e_ok e); cbn [map]; [reflexivity|exact IH].
+Qed.
 
 Definition inv_chain (s : st) : Prop :=
   lp s = last_end (execs s) /\ rchain (completed (execs s)).
@@ -319,7 +395,7 @@ Lemma inv_chain_commit sched s sns ens :
   inv_chain (committed sched s sns ens).
 Proof.
   intros (Hp & Hc) Hw Hstart. split.
-  - reflexivity.
+  - rewrite (commit_at_pointer sched s sns ens Hw Hstart). reflexivity.
   - cbn [committed execs]. rewrite completed_cons_ok by reflexivity.
     cbn [the_exec e_s e_e]. apply rchain_push; [apply div_ns_le; exact Hw| |exact Hc].
     pose proof (last_end_head (execs s)) as L.
@@ -412,135 +488,142 @@ Proof.
 Qed.
 
 (* ------------------------------------------------------------------------------------ *)
-(* scheduled windows never overlap unless a manual run names BOTH bounds                   *)
+(* ALL histories: scheduled windows never overlap and leave no gap                         *)
 (* ------------------------------------------------------------------------------------ *)
-
-Fixpoint clock_ok (T : Z) (ops : list op) : Prop :=
-  match ops with
-  | [] => True
-  | o :: r => match op_now o with Some t => T <= t /\ clock_ok t r | None => clock_ok T r end
-  end.
-
-Lemma clock_ok_of_nondecr ops : forall T,
-  nondecrb (clocks ops) = true -> (match clocks ops with [] => True | t :: _ => T <= t end) ->
-  clock_ok T ops.
-Proof.
-  induction ops as [|o r IH]; intros T Hn Hh; [exact I|].
-  cbn [clock_ok clocks] in *. destruct (op_now o) as [t|].
-  - split; [exact Hh|]. cbn [nondecrb] in Hn. apply andb_true_iff in Hn as [H1 H2].
-    apply IH; [exact H2|]. destruct (clocks r); [exact I|apply Z.leb_le; exact H1].
-  - apply IH; assumption.
-Qed.
-
-(* T is a clock reading (ns) no later than every future reading *)
-Definition inv_sorted (s : st) (T : Z) : Prop :=
-  lp s = last_end (execs s) /\
-  rsorted (completed_sched (execs s)) /\
-  (forall w, In w (completed_sched (execs s)) -> snd w * ns <= T) /\
-  (forall p, lp s = Some p -> forall w, In w (completed_sched (execs s)) -> snd w <= p).
 
 Lemma completed_sched_cons e log :
   completed_sched (e :: log) =
   if e_ok e && e_sched e then (e_s e, e_e e) :: completed_sched log else completed_sched log.
 Proof. unfold completed_sched. cbn [filter]. destruct (e_ok e && e_sched e); reflexivity. Qed.
 
-Lemma completed_sched_in_completed log w : In w (completed_sched log) -> In w (completed log).
+Definition inv_win (s : st) : Prop :=
+  inv_all s /\
+  rsorted (completed_sched (execs s)) /\
+  (forall p, lp s = Some p -> forall w, In w (completed_sched (execs s)) -> snd w <= p) /\
+  (forall p x, lp s = Some p -> front (execs s) = Some x -> p <= x) /\
+  gap_free (execs s) = true.
+
+Lemma inv_win_init : inv_win init.
 Proof.
-  unfold completed_sched, completed. rewrite !in_map_iff. intros (e & <- & He).
-  apply filter_In in He as [He Hf]. apply andb_true_iff in Hf as [Hok _].
-  exists e. split; [reflexivity|]. apply filter_In. auto.
+  split; [apply inv_all_init|]. split; [exact I|]. split; [intros p Hp; discriminate|].
+  split; [intros p x Hp; discriminate|reflexivity].
 Qed.
 
-Lemma inv_sorted_weaken s T T' : inv_sorted s T -> T <= T' -> inv_sorted s T'.
+Lemma lp_none_facts s : inv_all s -> lp s = None ->
+  completed_sched (execs s) = [] /\ front (execs s) = None.
 Proof.
-  intros (H1 & H2 & H3 & H4) Hle. repeat split; auto. intros w Hw. specialize (H3 w Hw). lia.
+  intros (Hp & _) Hn. rewrite Hp in Hn. apply ptr_of_none in Hn.
+  split; [apply no_ok_no_sched|apply no_ok_no_front]; exact Hn.
 Qed.
 
-Lemma inv_sorted_step lbs lbm s o s' out T :
-  inv_sorted s T -> explicit_both o = false -> step lbs lbm s o = (s', out) ->
-  match op_now o with
-  | Some t => T <= t -> inv_sorted s' t
-  | None => inv_sorted s' T
-  end.
+Lemma inv_win_commit sched s sns ens :
+  inv_win s -> sns < ens ->
+  (sched = true -> match lp s with Some l => sns / ns = l | None => True end) ->
+  inv_win (committed sched s sns ens).
 Proof.
-  intros Hi Hx H. pose proof Hi as (Hp & Hso & Hb & Hl).
-  assert (Hsame : match op_now o with Some t => T <= t -> inv_sorted s t | None => inv_sorted s T end).
-  { destruct (op_now o); [intros; eapply inv_sorted_weaken; eauto|exact Hi]. }
-  destruct (step_shape_of _ _ _ _ _ _ H) as
-      [-> _|act -> -> _|sched sns ens Hw -> _|sns ens Hw -> _|now fail -> Ha Hw -> _|now xs xe fail -> Ha Hw -> _].
-  - exact Hsame.
-  - cbn [op_now]. exact Hi.
-  - assert (Hi' : inv_sorted (add_failed s sched sns ens) T).
-    { unfold inv_sorted. cbn [add_failed lp execs last_end e_ok]. rewrite completed_sched_cons. cbn [e_ok andb].
-      repeat split; assumption. }
-    destruct (op_now o); [intros; eapply inv_sorted_weaken; eauto|exact Hi'].
-  - exact Hsame.
-  - (* scheduled run completes at `now` *)
-    cbn [op_now]. intros HT.
-    unfold inv_sorted. cbn [committed lp execs last_end the_exec e_ok e_sched e_s e_e].
-    rewrite completed_sched_cons. cbn [the_exec e_ok e_sched e_s e_e andb].
-    set (sns := win_start lbs s now None) in *.
+  intros (Ha & Hso & Hb & Hf & Hg) Hw Hstart.
+  pose proof (div_ns_le _ _ Hw) as Hle.
+  split; [apply inv_all_commit; assumption|].
+  destruct sched.
+  - (* a scheduled window: it starts at the pointer and the pointer ends at its end *)
+    specialize (Hstart eq_refl).
+    pose proof (commit_at_pointer true s sns ens Hw Hstart) as Hlp.
     assert (Hprev : forall w, In w (completed_sched (execs s)) -> snd w <= sns / ns).
-    { intros w Hw'. unfold sns, win_start. destruct (lp s) as [l|] eqn:El.
-      - rewrite mul_div_ns. eapply Hl; eauto.
-      - symmetry in Hp. apply last_end_none in Hp. apply completed_sched_in_completed in Hw'.
-        rewrite Hp in Hw'. destruct Hw'. }
-    split; [reflexivity|split; [|split]].
-    + cbn [rsorted]. split; [apply div_ns_le; exact Hw|split; [exact Hprev|exact Hso]].
-    + intros w [<-|Hw']; cbn [snd]; [unfold ns; lia|]. specialize (Hb w Hw'). lia.
-    + intros p Hpe w [<-|Hw']; injection Hpe as <-; cbn [snd]; [lia|].
-      specialize (Hb w Hw'). unfold ns in *. lia.
-  - (* manual run completes *)
-    cbn [op_now]. intros HT.
-    unfold inv_sorted. cbn [committed lp execs last_end the_exec e_ok e_sched e_s e_e].
-    rewrite completed_sched_cons. cbn [the_exec e_ok e_sched e_s e_e andb].
-    split; [reflexivity|split; [exact Hso|split]].
-    + intros w Hw'. specialize (Hb w Hw'). lia.
-    + intros p Hpe w Hw'. injection Hpe as <-.
-      destruct xs as [x|].
-      * destruct xe as [y|]; [cbn in Hx; discriminate|]. cbn [win_end].
-        specialize (Hb w Hw'). unfold ns in *. lia.
-      * (* start = pointer: the pointer can only move forward *)
-        unfold win_start in Hw. destruct (lp s) as [l|] eqn:El.
-        -- specialize (Hl l eq_refl w Hw'). unfold ns in *. lia.
-        -- symmetry in Hp. apply last_end_none in Hp. apply completed_sched_in_completed in Hw'.
-           rewrite Hp in Hw'. destruct Hw'.
+    { intros w Hin. destruct (lp s) as [l|] eqn:El.
+      - rewrite Hstart. eapply Hb; eauto.
+      - destruct (lp_none_facts s Ha El) as [E _]. rewrite E in Hin. destruct Hin. }
+    cbn [committed execs]. rewrite completed_sched_cons. cbn [the_exec e_ok e_sched e_s e_e andb].
+    split; [|split; [|split]].
+    + cbn [rsorted]. auto.
+    + intros p Hp w [<-|Hin]; rewrite Hlp in Hp; injection Hp as <-; cbn [snd]; [lia|].
+      specialize (Hprev w Hin). lia.
+    + intros p x Hp. rewrite Hlp in Hp. injection Hp as <-.
+      cbn [front the_exec e_ok e_sched e_s e_e]. destruct (front (execs s)) as [y|] eqn:Ef.
+      * assert (Hy : sns / ns <= y).
+        { destruct (lp s) as [l|] eqn:El.
+          - rewrite Hstart. eapply Hf; eauto.
+          - destruct (lp_none_facts s Ha El) as [_ E]. rewrite E in Ef. discriminate. }
+        replace (sns / ns <=? y) with true by (symmetry; apply Z.leb_le; exact Hy).
+        intros Hx; injection Hx as <-. lia.
+      * intros Hx; injection Hx as <-; lia.
+    + cbn [gap_free the_exec e_ok e_sched e_s andb]. rewrite Hg, andb_true_r.
+      destruct (front (execs s)) as [y|] eqn:Ef; [|reflexivity]. apply Z.leb_le.
+      destruct (lp s) as [l|] eqn:El.
+      * rewrite Hstart. eapply Hf; eauto.
+      * destruct (lp_none_facts s Ha El) as [_ E]. rewrite E in Ef. discriminate.
+  - (* a manual window: the scheduled windows are untouched; the pointer moves only if covered *)
+    cbn [committed execs lp]. rewrite completed_sched_cons. cbn [the_exec e_ok e_sched e_s e_e andb].
+    split; [exact Hso|]. split; [|split].
+    + intros p Hp w Hin. destruct (lp s) as [l|] eqn:El; cbn [advances] in Hp.
+      * specialize (Hb l eq_refl w Hin).
+        destruct ((sns / ns <=? l) && (l <? ens / ns)) eqn:E; injection Hp as <-; [|exact Hb].
+        apply andb_true_iff in E as [_ E]. lia.
+      * destruct (lp_none_facts s Ha El) as [E _]. rewrite E in Hin. destruct Hin.
+    + intros p x Hp. cbn [front the_exec e_ok e_sched e_s e_e].
+      destruct (lp s) as [l|] eqn:El; cbn [advances] in Hp.
+      * destruct (front (execs s)) as [y|] eqn:Ef; [|intros Hx; discriminate].
+        specialize (Hf l y eq_refl eq_refl).
+        destruct ((sns / ns <=? l) && (l <? ens / ns)) eqn:E; injection Hp as <-.
+        -- apply andb_true_iff in E as [E1 E2].
+           replace (sns / ns <=? y) with true by (symmetry; apply Z.leb_le; lia).
+           intros Hx; injection Hx as <-. lia.
+        -- destruct (sns / ns <=? y); intros Hx; injection Hx as <-; lia.
+      * destruct (lp_none_facts s Ha El) as [_ E]. rewrite E. intros Hx; discriminate.
+    + cbn [gap_free the_exec e_ok e_sched andb]. exact Hg.
 Qed.
 
-Lemma inv_sorted_run lbs lbm ops : forall s T,
-  inv_sorted s T -> no_explicit_both ops = true -> clock_ok T ops ->
-  exists T', inv_sorted (run lbs lbm s ops) T'.
+Lemma inv_win_step lbs lbm s o s' out :
+  inv_win s -> step lbs lbm s o = (s', out) -> inv_win s'.
 Proof.
-  induction ops as [|o r IH]; intros s T Hs Hg Hc; [exists T; exact Hs|].
-  cbn [run]. unfold no_explicit_both in Hg. cbn [forallb] in Hg. apply andb_true_iff in Hg as [Ho Hr].
-  apply negb_true_iff in Ho.
-  destruct (step lbs lbm s o) as [s' out] eqn:E. cbn [fst].
-  pose proof (inv_sorted_step _ _ _ _ _ _ _ Hs Ho E) as Hstep.
-  cbn [clock_ok] in Hc. destruct (op_now o) as [t|].
-  - destruct Hc as [Hle Hc]. eapply IH; [apply Hstep; exact Hle|exact Hr|exact Hc].
-  - eapply IH; [exact Hstep|exact Hr|exact Hc].
+  intros Hi H. pose proof Hi as (Ha & Hso & Hb & Hf & Hg).
+  destruct (step_shape_of _ _ _ _ _ _ H) as
+      [-> _|act _ -> _|sched sns ens Hw -> _|sns ens Hw -> _|now fail _ Hact Hw -> _|now xs xe fail _ Hact Hw -> _].
+  - exact Hi.
+  - exact Hi.
+  - assert (Ha' : inv_all (add_failed s sched sns ens)).
+    { destruct Ha as (A1 & A2 & A3). repeat split; cbn; assumption. }
+    split; [exact Ha'|]. cbn [add_failed lp execs]. rewrite completed_sched_cons.
+    cbn [e_ok andb front gap_free]. repeat split; assumption.
+  - assert (Ha' : inv_all (add_dest s (the_row sns ens))).
+    { destruct Ha as (A1 & A2 & A3). repeat split; cbn [add_dest lp execs dest forallb]; try assumption.
+      rewrite label_ok_the_row by assumption. exact A3. }
+    split; [exact Ha'|]. cbn [add_dest lp execs]. repeat split; assumption.
+  - apply inv_win_commit; [exact Hi|exact Hw|]. intros _. unfold win_start.
+    destruct (lp s); [apply mul_div_ns|exact I].
+  - apply inv_win_commit; [exact Hi|exact Hw|]. intros Hx; discriminate.
 Qed.
 
-Lemma inv_sorted_init T : inv_sorted init T.
+Lemma inv_win_run lbs lbm ops : forall s, inv_win s -> inv_win (run lbs lbm s ops).
 Proof.
-  split; [reflexivity|split; [exact I|split]].
-  - intros w [].
-  - intros p Hp; discriminate.
+  induction ops as [|o r IH]; intros s Hs; [exact Hs|].
+  cbn [run]. apply IH. destruct (step lbs lbm s o) as [s' out] eqn:E. cbn [fst].
+  eapply inv_win_step; eauto.
 Qed.
 
-Lemma sched_disjoint_guarded lbs lbm ops :
-  no_explicit_both ops = true -> nondecrb (clocks ops) = true ->
+Lemma sched_disjoint_all lbs lbm ops :
   sortedb (completed_sched (rev (execs (run lbs lbm init ops)))) = true.
 Proof.
-  intros Hg Hn. rewrite completed_sched_rev. apply sortedb_rev.
-  set (T := match clocks ops with [] => 0 | t :: _ => t end).
-  destruct (inv_sorted_run lbs lbm ops init T (inv_sorted_init T) Hg) as [T' (_ & H & _)]; [|exact H].
-  apply clock_ok_of_nondecr; [exact Hn|]. unfold T. destruct (clocks ops); [exact I|lia].
+  rewrite completed_sched_rev. apply sortedb_rev.
+  destruct (inv_win_run lbs lbm ops init inv_win_init) as (_ & H & _). exact H.
 Qed.
+
+Lemma no_gap_all lbs lbm ops : gap_free (execs (run lbs lbm init ops)) = true.
+Proof. destruct (inv_win_run lbs lbm ops init inv_win_init) as (_ & _ & _ & _ & H). exact H. Qed.
 
 (* ------------------------------------------------------------------------------------ *)
 (* failure / crash: the window is re-processed, not skipped                                *)
 (* ------------------------------------------------------------------------------------ *)
+
+Lemma sched_complete_at lbs lbm s l now :
+  active s = true -> lp s = Some l -> l * ns < now ->
+  step lbs lbm s (Sched now false None) = (committed true s (l * ns) now, OCompleted l (now / ns)) /\
+  lp (committed true s (l * ns) now) = Some (now / ns).
+Proof.
+  intros Ha Hl H1. cbn [step]. rewrite Ha. cbn [negb]. unfold win_start. rewrite Hl.
+  assert (E : (l * ns <? now) = true) by (apply Z.ltb_lt; exact H1). rewrite E. cbn [negb].
+  unfold run_window. rewrite run_prefix_full by lia. rewrite mul_div_ns. split; [reflexivity|].
+  apply commit_at_pointer; [exact H1|]. rewrite Hl. apply mul_div_ns.
+Qed.
 
 Lemma sched_failed_then_ok lbs lbm s l now1 now2 c :
   active s = true -> lp s = Some l -> l * ns < now1 -> now1 <= now2 ->
@@ -549,12 +632,15 @@ Lemma sched_failed_then_ok lbs lbm s l now1 now2 c :
   o1 = OFailed l (now1 / ns) /\ lp s1 = Some l /\
   o2 = OCompleted l (now2 / ns) /\ lp s2 = Some (now2 / ns) /\ now1 / ns <= now2 / ns.
 Proof.
-  intros Ha Hl H1 H2. cbn [step]. rewrite Ha. cbn [negb]. unfold win_start. rewrite Hl.
-  assert (E1 : (l * ns <? now1) = true) by (apply Z.ltb_lt; exact H1). rewrite E1. cbn [negb].
-  unfold run_window at 1. cbn [add_failed active lp]. rewrite Ha. cbn [negb]. rewrite Hl.
-  assert (E2 : (l * ns <? now2) = true) by (apply Z.ltb_lt; lia). rewrite E2. cbn [negb].
-  unfold run_window. rewrite run_prefix_full by lia. cbn [committed lp].
-  rewrite mul_div_ns. repeat split; try reflexivity. unfold ns. lia.
+  intros Ha Hl H1 H2.
+  assert (E1 : step lbs lbm s (Sched now1 true c) = (add_failed s true (l * ns) now1, OFailed l (now1 / ns))).
+  { cbn [step]. rewrite Ha. cbn [negb]. unfold win_start. rewrite Hl.
+    assert (E : (l * ns <? now1) = true) by (apply Z.ltb_lt; exact H1). rewrite E. cbn [negb].
+    unfold run_window. rewrite mul_div_ns. reflexivity. }
+  rewrite E1.
+  destruct (sched_complete_at lbs lbm (add_failed s true (l * ns) now1) l now2) as [E2 E3];
+    [exact Ha|exact Hl|lia|].
+  rewrite E2. repeat split; try assumption; try reflexivity. unfold ns. lia.
 Qed.
 
 Lemma sched_crashed_then_ok lbs lbm s l now1 now2 c :
@@ -564,13 +650,15 @@ Lemma sched_crashed_then_ok lbs lbm s l now1 now2 c :
   o1 = OCrashed /\ lp s1 = Some l /\ execs s1 = execs s /\
   o2 = OCompleted l (now2 / ns) /\ lp s2 = Some (now2 / ns) /\ now1 / ns <= now2 / ns.
 Proof.
-  intros Ha Hl H1 H2. cbn [step]. rewrite Ha. cbn [negb]. unfold win_start. rewrite Hl.
-  assert (E1 : (l * ns <? now1) = true) by (apply Z.ltb_lt; exact H1). rewrite E1. cbn [negb].
-  unfold run_window at 1.
-  rewrite run_prefix_mid by (destruct c; cbn; lia). cbn [add_dest active lp execs]. rewrite Ha. cbn [negb]. rewrite Hl.
-  assert (E2 : (l * ns <? now2) = true) by (apply Z.ltb_lt; lia). rewrite E2. cbn [negb].
-  unfold run_window. rewrite run_prefix_full by lia. cbn [committed lp].
-  rewrite mul_div_ns. repeat split; try reflexivity. unfold ns. lia.
+  intros Ha Hl H1 H2.
+  assert (E1 : step lbs lbm s (Sched now1 false (Some c)) = (add_dest s (the_row (l * ns) now1), OCrashed)).
+  { cbn [step]. rewrite Ha. cbn [negb]. unfold win_start. rewrite Hl.
+    assert (E : (l * ns <? now1) = true) by (apply Z.ltb_lt; exact H1). rewrite E. cbn [negb].
+    unfold run_window. rewrite run_prefix_mid by (destruct c; cbn; lia). reflexivity. }
+  rewrite E1.
+  destruct (sched_complete_at lbs lbm (add_dest s (the_row (l * ns) now1)) l now2) as [E2 E3];
+    [exact Ha|exact Hl|lia|].
+  rewrite E2. repeat split; try assumption; try reflexivity. unfold ns. lia.
 Qed.
 
 (* label of the rows written by a scheduled run that starts at the pointer: exactly the
@@ -580,8 +668,16 @@ Lemma sched_label_exact lbs lbm s l now :
   dest (fst (step lbs lbm s (Sched now false None))) =
   {| r_t := l * 1000000; r_ws := l; r_we := now / ns |} :: dest s.
 Proof.
-  intros Ha Hl H1. cbn [step]. rewrite Ha. cbn [negb]. unfold win_start. rewrite Hl.
-  assert (E1 : (l * ns <? now) = true) by (apply Z.ltb_lt; exact H1). rewrite E1. cbn [negb].
-  unfold run_window. rewrite run_prefix_full by lia. cbn [fst committed dest the_row].
-  f_equal. unfold the_row. f_equal; unfold ns; lia.
+  intros Ha Hl H1. destruct (sched_complete_at lbs lbm s l now Ha Hl H1) as [E _]. rewrite E.
+  cbn [fst committed dest]. f_equal. unfold the_row. f_equal; unfold ns; lia.
+Qed.
+
+(* a manual back-fill that ends before the pointer, or a manual run that starts after it, is
+   executed and recorded but leaves the pointer where it is *)
+Lemma manual_outside_keeps_pointer sched s sns ens l :
+  lp s = Some l -> (ens / ns <= l \/ l < sns / ns) -> lp (committed sched s sns ens) = Some l.
+Proof.
+  intros Hl H. cbn [committed lp]. rewrite Hl. cbn [advances].
+  destruct ((sns / ns <=? l) && (l <? ens / ns)) eqn:E; [|reflexivity].
+  apply andb_true_iff in E as [E1 E2]. lia.
 Qed.
